@@ -31,7 +31,9 @@ type ScalarCase struct {
 	ListMissing []bool `json:"list_missing,omitempty"`
 	// rule names defined for this call only (VVar/VMap/VUrl.SetValidFn, MapFn, StructForFns)
 	CallFns []string `json:"callfns,omitempty"`
-	noDup   bool
+	// tag carrier: rule text of an earlier call on the same struct type that overrides the field's rule
+	Decoy string `json:"decoy,omitempty"`
+	noDup bool
 }
 
 func (c *ScalarCase) callFn(name string) bool {
@@ -145,6 +147,16 @@ func (c *ScalarCase) prepare() func() error {
 					fm[n] = perCallFn(n)
 				}
 				return valid.StructForFns(src, nil, fm)
+			}
+		}
+		if c.Decoy != "" {
+			decoy := c.Decoy
+			sv2 := reflect.New(sv.Type().Elem())
+			sv2.Elem().Field(0).Set(v)
+			src2 := sv2.Interface()
+			return func() error {
+				_ = valid.StructForFn(src2, valid.RM{"K": decoy})
+				return valid.Struct(src)
 			}
 		}
 		return func() error { return valid.Struct(src) }
